@@ -395,7 +395,9 @@ def process_chunk(job):
 
     def report(what, concrete, rep):
         crashed = any("crashed" in b for b in rep.get("canaries_broken") or [])
-        if len(findings) < 12:
+        # failing inputs first: mere disagreements must not crowd them out
+        nconc = sum(1 for f in findings if f[2])
+        if (concrete and nconc < 12) or (not concrete and len(findings) - nconc < 6):
             findings.append((0 if concrete and not crashed else 1 if concrete else 2, what, concrete, rep))
 
     # ---- pass 1
